@@ -44,7 +44,7 @@ const TIMEOUTS: &[u64] = &[5000, 5000, 2500, 15_000, 1000];
 
 pub fn strategy(max_ops: usize) -> impl Strategy<Value = Case> {
     let op = prop_oneof![
-        14 => prop_oneof![3 => Just(0u16), 2 => 0u16..=500, 1 => Just(500u16)].prop_map(Op::Tick),
+        14 => prop_oneof![6 => Just(0u16), 4 => 0u16..=500, 2 => Just(500u16), 3 => proptest::sample::select(vec![501u16, 502, 503])].prop_map(Op::Tick),
         10 => (any::<u16>(), 0u8..10, prop_oneof![3 => 0u16..300, 1 => Just(0u16), 1 => 0u16..12_000], vec(any::<u8>(), 0..12)).prop_map(|(l, m, d, t)| Op::Echo(l, m, d, t)),
         6 => any::<u16>().prop_map(Op::Inbound),
         3 => (1u8..60).prop_map(Op::Client),
@@ -133,7 +133,17 @@ pub fn check(case: &Case, obs: &mut Obs) -> CheckResult {
                 sh.uplink_pkt(li, &p);
             }
             Op::Tick(j) => {
-                let dt = 1000 + (*j as u64).min(500);
+                // 0..=500: the period plus jitter; 501..503: a tick that comes 1, 2 or 10 ms early (the timer's
+                // millisecond granularity: such a tick finds the last keepalive less than a second old)
+                let dt = match *j {
+                    501 => 999,
+                    502 => 998,
+                    503 => 990,
+                    j => 1000 + (j as u64).min(500),
+                };
+                if dt < 1000 {
+                    obs.class("early-tick");
+                }
                 // spacing is measured between consecutive ticks (other ops may add time)
                 sh.advance(dt);
                 let now = sh.now();
